@@ -35,6 +35,8 @@ func init() {
 			"\tif s.state == StateActive {\n\t\ts.prepareWrite(f)\n\t\treturn s.Flush()\n\t} else {", "\tif s.state == StateActive {\n\t\t_, err := s.codecConn.WriteNext(*f)\n\t\treturn err\n\t} else {", "C16-R1"},
 		mutant{"trailing bytes written", "codec/websocket/frame.go",
 			"\tif end := f.payloadOffset() + f.PayloadLength(); end >= 0 && end < len(f) {\n\t\tf = f[:end]\n\t}\n", "", "C16-R3"},
+		mutant{"only never-resized frames are trimmed", "codec/websocket/frame.go",
+			"\tif end := f.payloadOffset() + f.PayloadLength(); end >= 0 && end < len(f) {\n\t\tf = f[:end]\n\t}", "\tif len(f) <= frameMaxHeaderLength {\n\t\tif end := f.payloadOffset() + f.PayloadLength(); end >= 0 && end < len(f) {\n\t\t\tf = f[:end]\n\t\t}\n\t}", "C16-R3"},
 		mutant{"frame trimmed to the payload only", "codec/websocket/frame.go",
 			"\tif end := f.payloadOffset() + f.PayloadLength(); end >= 0 && end < len(f) {", "\tif end := f.PayloadLength(); end >= 0 && end < len(f) {", "C16-R3"},
 		mutant{"offset computed before the length is set", "codec/websocket/frame.go",
@@ -200,6 +202,14 @@ func runC16(c *Ctx) {
 			if !lt {
 				why = "the trim in Frame.WriteTo is not guarded by end < len(f)"
 				return
+			}
+			// ... and by nothing else: every frame longer than header + payload must be trimmed
+			for _, l := range guardsOf(in.Block()) {
+				_, x, y, ok := l.cmp()
+				if !ok || (stripConv(x) != stripConv(sl.High) && stripConv(y) != stripConv(sl.High)) {
+					why = "the trim in Frame.WriteTo only happens under an additional condition unrelated to the frame's end (pooled frames keep the length of their previous use)"
+					return
+				}
 			}
 			// the trimmed value must be what the write loop slices
 			used := false
